@@ -1,4 +1,47 @@
 //! C13 — UAC INVITE: responses map deterministically to early dialogs, sessions, failure
+//!
+//! **Generated.** One INVITE is sent through `Initiator` over a mock UDP transport under the paused clock; a case is
+//! * a history of 1..10 responses (status from {100,180,183,199,200,202,300,404,486,603}; To-tag none / one of 3
+//!   forks; Contact present 93 %; 0..3 Record-Route; Supported timer/100rel; Require+RSeq; Session-Expires) at gaps
+//!   1..31000 ms, each carrying a unique `X-Seq` marker,
+//! * the SPELLING of the forks' To-tags (`tags`, see `TAG_FAMILIES`): plain `t0 t1 t2`, tags that differ only in
+//!   letter case, tags that are prefixes of each other, tags differing in one punctuation character of the token
+//!   alphabet, long tags differing in the last character only, numeric look-alikes (`1`, `01`, `1.0`). To-tags are
+//!   opaque tokens compared byte-wise (RFC 3261 19.3), so every pair of different strings is a pair of different forks,
+//! * the APPLICATION's polling schedule (`busy`): `busy[i]` ms pass between `Initiator::receive` handing response i
+//!   to the application and the application's next call of `receive` (0 = it polls again at once; values 3 ms ..
+//!   40 s, i.e. also longer than 64*T1). While the application is busy responses queue up in the transaction; they
+//!   are classified when it polls again. Every `Early` is polled continuously by its own task and let go of when it
+//!   yields a session or `Terminated`.
+//! Sub-checks: `exhaustive` = every history of length <= 4 (thorough 5) over {100,180,200,486} x {no tag,t0,t1},
+//! continuous polling; `exhaustive-variants` = every history of length <= 3 (thorough 4) over the same alphabet under
+//! each of: case-variant tags, prefix tags, 33 s busy after every / only the first / only the second response, 600 ms
+//! busy after every response; `random` = sampled histories with all dimensions (half of them polled continuously).
+//!
+//! **Oracle.** A reference classifier replays the history in arrival order (the transaction's queue is FIFO) with
+//! the set of tags seen so far and the application's ready time R: response i is classified at d_i = max(arrival_i, R)
+//! as 100 -> Provisional; 101-199 new tag -> new early dialog, known tag -> forwarded to exactly that early dialog;
+//! 2xx -> session (through the early dialog of its tag if there is one) whose Call-ID / local tag come from the INVITE
+//! and whose remote tag (byte-exact), remote target and route set come from THAT response; first 3xx-6xx -> Failure,
+//! `Terminated` on every live early dialog, nothing delivered afterwards. Every response has exactly one recipient,
+//! exactly once, at d_i. A response that ARRIVED inside the Accepted window (earlier than 64*T1 - 3 ms after the
+//! arrival of the first 2xx) must be delivered however late the application polls. `Finished` is reported once, at
+//! max(R_final, D) with D = 64*T1 after the first 2xx, where "after the first 2xx" is accepted in both readings
+//! (its arrival, or the moment the polling application made the transaction see it).
+//!
+//! **Not asserted.** What the application sees for a response whose tag already has its session (only: no second
+//! dialog, at most one delivery), and everything after it if the application is busy after that response (R is then
+//! unknown); anything from a dialog-creating response without Contact on; a non-2xx after a 2xx; responses arriving
+//! between 64*T1 - 3 ms after the first 2xx's arrival and the moment `Finished` is certainly reported (incl. those
+//! that arrive after the deadline while the application has not polled yet); the order of the route set (C11);
+//! lazily polled `Early` objects (their channel is bounded, back-pressure timing is not part of the statement).
+//!
+//! **Found with the lazily polled histories and repaired** (known_findings.txt, fix d9580d2): behind a 3xx-6xx that
+//! follows a 2xx the failure empties `early_list`, a further 18x of a tag that had an early dialog created a second
+//! `Dialog` with the same key; handled in one burst (application was busy) the first `Early` was dropped AFTER the
+//! second was registered and took the dialog-layer entry with it, and the 2xx confirming the second hit
+//! `expect("called by the dialog")` in `Dialog::register_usage`. History: 200, 100 (busy), 180 tag a, 300, 180 tag a,
+//! 200 tag a (regress/C13-fixed-panic-register-usage-after-failure-following-2xx.json). Such tails are generated.
 
 use crate::engine::*;
 use crate::refmodel::ref_tsx::TIMEOUT;
@@ -41,6 +84,39 @@ pub struct Case {
     pub rng: u8,
 }
 
+/// A C13 case: the response history plus the spelling of the forks' To-tags and the application's polling schedule.
+/// (`Case` above is the bare history; C02 drives `run` with it.)
+#[derive(Serialize, Deserialize, Clone, Debug, Hash)]
+pub struct AppCase {
+    pub responses: Vec<RespEv>,
+    pub rng: u8,
+    /// index into `TAG_FAMILIES`: how the To-tags of the forks are spelled (0 = t0, t1, t2)
+    #[serde(default)]
+    pub tags: u8,
+    /// `busy[i]` = ms between `Initiator::receive` handing response i to the application and the application's next
+    /// call of `receive` (missing / 0 = at once). Irrelevant for responses that are forwarded to an early dialog or
+    /// ignored inside `receive`.
+    #[serde(default)]
+    pub busy: Vec<u64>,
+}
+
+/// Spellings of the (up to 3) fork To-tags. Every family consists of three DIFFERENT tokens: To-tags are opaque and
+/// compared byte-wise, so each is its own fork. `%` is left out (percent-decoding of header parameters is the open
+/// finding of C09/C11).
+pub const TAG_FAMILIES: &[(&str, [&str; 3])] = &[
+    ("plain", ["t0", "t1", "t2"]),
+    ("case-variants", ["7aF3", "7AF3", "7af3"]),
+    ("prefix-of-each-other", ["ab", "abc", "a"]),
+    ("one-punctuation-char", ["x.1-a_b", "x.1-a!b", "x.1-a~b"]),
+    ("long-last-char-differs", ["0123456789abcdef0123456789abcdef0123456a", "0123456789abcdef0123456789abcdef0123456b", "0123456789abcdef0123456789abcdef0123456c"]),
+    ("numeric-lookalike", ["1", "01", "1.0"]),
+];
+
+pub fn tag_text(family: u8, idx: u8) -> String {
+    let f = &TAG_FAMILIES[(family as usize).min(TAG_FAMILIES.len() - 1)].1;
+    f[(idx as usize).min(2)].to_string()
+}
+
 const CODES: &[u16] = &[100, 180, 183, 199, 200, 202, 300, 404, 486, 603];
 
 fn resp_strategy() -> BoxedStrategy<RespEv> {
@@ -70,15 +146,43 @@ fn resp_strategy() -> BoxedStrategy<RespEv> {
         .boxed()
 }
 
-pub fn strategy() -> BoxedStrategy<Case> {
-    (prop::collection::vec(resp_strategy(), 1..11), any::<u8>())
-        .prop_map(|(responses, rng)| Case { responses, rng })
+/// how long the application is busy after being handed a response: not at all, a few ms, around T1, seconds, just
+/// below / above / well above 64*T1
+fn busy_strategy() -> BoxedStrategy<u64> {
+    prop_oneof![
+        6 => Just(0u64),
+        1 => Just(3u64),
+        1 => Just(40u64),
+        1 => Just(600u64),
+        1 => Just(2_530u64),
+        1 => Just(31_600u64),
+        2 => Just(33_010u64),
+        1 => Just(40_020u64),
+    ]
+    .boxed()
+}
+
+pub fn strategy() -> BoxedStrategy<AppCase> {
+    (
+        prop::collection::vec((resp_strategy(), busy_strategy()), 1..11),
+        any::<u8>(),
+        // tag spelling: plain 4/9, every other family 1/9
+        prop_oneof![4 => Just(0u8), 1 => Just(1u8), 1 => Just(2u8), 1 => Just(3u8), 1 => Just(4u8), 1 => Just(5u8)],
+        // half of the cases: the application polls continuously
+        any::<bool>(),
+    )
+        .prop_map(|(evs, rng, tags, lazy)| {
+            let (responses, mut busy): (Vec<RespEv>, Vec<u64>) = evs.into_iter().unzip();
+            if !lazy {
+                busy.clear();
+            }
+            AppCase { responses, rng, tags, busy }
+        })
         .boxed()
 }
 
-/// every history of length <= max_len over a reduced alphabet (codes 100,180,200,486; tags none,t0,t1)
-pub fn exhaustive_cases(tier: Tier) -> Vec<Case> {
-    let max_len = tier.pick(4usize, 5usize);
+/// every history of length <= max_len over a reduced alphabet (codes 100,180,200,486; tags none,#0,#1)
+fn histories(max_len: usize) -> Vec<Case> {
     let codes = [100u16, 180, 200, 486];
     let tags = [None, Some(0u8), Some(1u8)];
     let mut alphabet = vec![];
@@ -120,6 +224,36 @@ pub fn exhaustive_cases(tier: Tier) -> Vec<Case> {
                 n.push(a);
                 stack.push(n);
             }
+        }
+    }
+    out
+}
+
+/// plain tags, continuous polling
+pub fn exhaustive_cases(tier: Tier) -> Vec<AppCase> {
+    histories(tier.pick(4usize, 5usize))
+        .into_iter()
+        .map(|c| AppCase { responses: c.responses, rng: c.rng, tags: 0, busy: vec![] })
+        .collect()
+}
+
+/// the same alphabet one step shorter, under each tag-spelling / polling variant
+pub fn variant_cases(tier: Tier) -> Vec<AppCase> {
+    let max_len = tier.pick(3usize, 4usize);
+    let mut out = vec![];
+    for c in histories(max_len) {
+        let n = c.responses.len();
+        let only = |k: usize, b: u64| (0..n).map(|i| if i == k { b } else { 0 }).collect::<Vec<u64>>();
+        let variants: Vec<(u8, Vec<u64>)> = vec![
+            (1, vec![]),
+            (2, vec![]),
+            (0, vec![33_010; n]),
+            (0, vec![600; n]),
+            (0, only(0, 33_010)),
+            (0, only(1, 33_010)),
+        ];
+        for (tags, busy) in variants {
+            out.push(AppCase { responses: c.responses.clone(), rng: c.rng, tags, busy });
         }
     }
     out
@@ -232,7 +366,12 @@ fn routes_of(i: usize, n: u8) -> Vec<String> {
     (0..n).map(|k| format!("p{i}x{k}.example.com")).collect()
 }
 
+/// the bare history: plain tags, an application that polls continuously (C02 uses this)
 pub fn run(case: &Case) -> Observed {
+    run_app(&AppCase { responses: case.responses.clone(), rng: case.rng, tags: 0, busy: vec![] })
+}
+
+pub fn run_app(case: &AppCase) -> Observed {
     let case = case.clone();
     run_world(case.rng as u64, |clock| async move {
         let log = WireLog::new(clock);
@@ -268,19 +407,29 @@ pub fn run(case: &Case) -> Observed {
         {
             let events = events.clone();
             let sessions = sessions.clone();
+            let busy = case.busy.clone();
             tokio::spawn(async move {
                 loop {
                     let r = initiator.receive().await;
                     let t_ms = clock.now_ms();
+                    let handed: Option<String>;
                     match r {
-                        Ok(Response::Provisional(r)) => events.lock().push(Event { t_ms, recipient: None, kind: Kind::Provisional, marker: marker_of(&r), dialog: None }),
-                        Ok(Response::Failure(r)) => events.lock().push(Event { t_ms, recipient: None, kind: Kind::Failure, marker: marker_of(&r), dialog: None }),
+                        Ok(Response::Provisional(r)) => {
+                            handed = marker_of(&r);
+                            events.lock().push(Event { t_ms, recipient: None, kind: Kind::Provisional, marker: marker_of(&r), dialog: None })
+                        }
+                        Ok(Response::Failure(r)) => {
+                            handed = marker_of(&r);
+                            events.lock().push(Event { t_ms, recipient: None, kind: Kind::Failure, marker: marker_of(&r), dialog: None })
+                        }
                         Ok(Response::Early(early, r, _)) => {
+                            handed = marker_of(&r);
                             let tag = r.base_headers.to.tag.as_ref().map(|t| t.to_string()).unwrap_or_default();
                             events.lock().push(Event { t_ms, recipient: None, kind: Kind::EarlyCreated, marker: marker_of(&r), dialog: None });
                             tokio::spawn(early_task(clock, tag, early, events.clone(), sessions.clone()));
                         }
                         Ok(Response::Session(session, r)) => {
+                            handed = marker_of(&r);
                             events.lock().push(Event { t_ms, recipient: None, kind: Kind::Session, marker: marker_of(&r), dialog: Some(summarize(&session.dialog)) });
                             sessions.lock().push(session);
                         }
@@ -292,6 +441,14 @@ pub fn run(case: &Case) -> Observed {
                             events.lock().push(Event { t_ms, recipient: None, kind: Kind::Error(e.to_string()), marker: None, dialog: None });
                             break;
                         }
+                    }
+                    // the application is busy with what it was handed before it gets back to the initiator
+                    let b = handed
+                        .and_then(|m| m.get(1..).and_then(|n| n.parse::<usize>().ok()))
+                        .and_then(|i| busy.get(i).copied())
+                        .unwrap_or(0);
+                    if b > 0 {
+                        clock.advance(b).await;
                     }
                 }
                 // keep the initiator alive until the world ends (early dialogs reference its channels)
@@ -333,13 +490,14 @@ pub fn run(case: &Case) -> Observed {
                     }
                 }
                 extra.extend(r.extra.iter().cloned());
-                let tag = r.tag.map(|t| format!("t{t}"));
+                let tag = r.tag.map(|t| tag_text(case.tags, t));
                 let bytes = response_text(inv, r.code, tag.as_deref(), &extra);
                 inject(&endpoint, &tp, peer, &bytes);
                 settle().await;
             }
         }
-        clock.until(t + TIMEOUT + 5000).await;
+        // every busy period delays the application by at most its own length
+        clock.until(t + case.busy.iter().sum::<u64>() + TIMEOUT + 5000).await;
         settle().await;
         let evs = events.lock().clone();
         sessions.lock().clear();
@@ -347,88 +505,117 @@ pub fn run(case: &Case) -> Observed {
     })
 }
 
-pub fn check(case: &Case, out: &mut CaseOut) {
-    let obs = run(case);
+pub fn check(case: &AppCase, out: &mut CaseOut) {
+    let obs = run_app(case);
     let Some(invite) = obs.invite.clone() else {
         out.fail("c13.harness/no-invite", format!("INVITE not sent: {:?}", obs.events));
         return;
     };
     let call_id = invite.call_id().unwrap_or("").to_string();
     let local_tag = invite.from_tag().unwrap_or_default();
+    let tag_of = |r: &RespEv| r.tag.map(|x| tag_text(case.tags, x));
+    let busy_of = |i: usize| case.busy.get(i).copied().unwrap_or(0);
 
     // ---- reference classifier ----
     #[derive(Debug, Clone, PartialEq)]
     struct Want {
         marker: String,
+        /// when the response is classified: its arrival, or the application's next poll if that is later
         t: u64,
         recipient: Option<String>,
         kinds: Vec<Kind>, // admissible kinds
         optional: bool,
         idx: usize,
+        /// it waited in the transaction's queue while the application was busy
+        queued: bool,
+        /// it arrived inside the Accepted window but is polled only after the earliest reading of the 64*T1 deadline
+        polled_after_deadline: bool,
     }
     let mut want: Vec<Want> = vec![];
     let mut early: BTreeSet<String> = BTreeSet::new(); // live early dialogs by tag
     let mut upgraded: BTreeSet<String> = BTreeSet::new(); // tags whose early dialog became a session (early dropped)
     let mut direct_sessions: BTreeSet<String> = BTreeSet::new();
-    let mut first_2xx: Option<u64> = None;
-    let mut ended: Option<u64> = None; // transaction over (non-2xx final)
+    // first 2xx seen by the transaction: (arrival, moment the polling application made the transaction see it)
+    let mut accepted: Option<(u64, u64)> = None;
+    let mut ended: Option<(usize, u64)> = None; // transaction over (non-2xx final): index, time it was handed over
+    let mut gone = false; // Finished was certainly reported before this arrival
     let mut expect_terminated: Vec<(String, u64)> = vec![];
-    let mut stop_at: Option<usize> = None; // malformed response: classification result is not asserted from here on
+    let mut stop_at: Option<usize> = None; // classification result is not asserted from this index on
+    let mut cut_t: Option<u64> = None; // ... i.e. from this moment on
     let mut t = 0u64;
+    let mut ready = 0u64; // R: the moment from which the application is (again) inside Initiator::receive
     let mut dup_seen = false;
     let mut dup_markers: Vec<(String, &'static str)> = vec![];
+    let mut busy_used = false;
     for (i, r) in case.responses.iter().enumerate() {
         t += r.gap;
         let marker = format!("m{i}");
-        if ended.is_some() {
+        if ended.is_some() || gone {
             continue; // orphan: the transaction has ended
         }
-        if let Some(f) = first_2xx {
-            if t + 3 >= f + TIMEOUT {
-                // at / after the end of the Accepted state: not asserted
-                if t > f + TIMEOUT + 3 {
+        if let Some((fa, fd)) = accepted {
+            if t + 3 >= fa + TIMEOUT {
+                // at / after the end of the Accepted state (in its earliest reading)
+                if ready.max(fd + TIMEOUT) + 3 < t {
+                    // the application was inside receive() when the deadline (latest reading) passed: Finished is out
+                    gone = true;
                     continue;
                 }
+                // around the deadline, or after it while the application has not polled yet: not asserted
                 stop_at = Some(i);
+                cut_t = Some(t.max(ready));
                 break;
             }
         }
-        let tag = r.tag.map(|x| format!("t{x}"));
+        // FIFO: classified on arrival if the application is waiting in receive(), else at its next poll
+        let d = t.max(ready);
+        ready = d;
+        let queued = d > t;
+        let polled_after_deadline = accepted.map_or(false, |(fa, _)| d >= fa + TIMEOUT);
+        let mk = |recipient: Option<String>, kinds: Vec<Kind>, optional: bool| Want { marker: marker.clone(), t: d, recipient, kinds, optional, idx: i, queued, polled_after_deadline };
+        let tag = tag_of(r);
         let needs_dialog = (101..300).contains(&r.code) && tag.is_some();
+        // handed = Initiator::receive returns this response to the application, which is then busy for busy[i]
+        let mut handed = false;
         if r.code <= 100 {
-            want.push(Want { marker, t, recipient: None, kinds: vec![Kind::Provisional], optional: false, idx: i });
+            want.push(mk(None, vec![Kind::Provisional], false));
+            handed = true;
         } else if r.code >= 300 {
-            want.push(Want { marker, t, recipient: None, kinds: vec![Kind::Failure], optional: first_2xx.is_some(), idx: i });
-            if first_2xx.is_none() {
+            want.push(mk(None, vec![Kind::Failure], accepted.is_some()));
+            if accepted.is_none() {
                 for e in &early {
-                    expect_terminated.push((e.clone(), t));
+                    expect_terminated.push((e.clone(), d));
                 }
                 early.clear();
-                ended = Some(t);
+                ended = Some((i, d));
+                handed = true;
             } else {
                 // a non-2xx after a 2xx: what the initiator does with it is not asserted
                 stop_at = Some(i + 1);
+                cut_t = Some(d);
                 break;
             }
         } else if tag.is_none() {
-            // 1xx/2xx without To-tag: cannot create a dialog, ignored
-            if (200..300).contains(&r.code) && first_2xx.is_none() {
-                first_2xx = Some(t);
+            // 1xx/2xx without To-tag: cannot create a dialog, ignored (the transaction still sees the 2xx)
+            if (200..300).contains(&r.code) && accepted.is_none() {
+                accepted = Some((t, d));
             }
         } else if needs_dialog && !r.contact && !early.contains(tag.as_ref().unwrap()) {
             // a dialog-creating response without Contact is malformed: error or ignore, nothing asserted after
             stop_at = Some(i);
+            cut_t = Some(d);
             break;
         } else {
             let tag = tag.unwrap();
-            if (200..300).contains(&r.code) && first_2xx.is_none() {
-                first_2xx = Some(t);
+            if (200..300).contains(&r.code) && accepted.is_none() {
+                accepted = Some((t, d));
             }
             if early.contains(&tag) {
+                // forwarded inside receive(): the application is not handed anything
                 if r.code < 200 {
-                    want.push(Want { marker, t, recipient: Some(tag.clone()), kinds: vec![Kind::Provisional], optional: false, idx: i });
+                    want.push(mk(Some(tag.clone()), vec![Kind::Provisional], false));
                 } else {
-                    want.push(Want { marker, t, recipient: Some(tag.clone()), kinds: vec![Kind::Session], optional: false, idx: i });
+                    want.push(mk(Some(tag.clone()), vec![Kind::Session], false));
                     early.remove(&tag);
                     upgraded.insert(tag);
                 }
@@ -437,21 +624,42 @@ pub fn check(case: &Case, out: &mut CaseOut) {
                 // what the application sees is not asserted, only that nothing breaks
                 dup_seen = true;
                 dup_markers.push((marker.clone(), if upgraded.contains(&tag) { "after-early-upgrade" } else { "direct" }));
-                want.push(Want { marker, t, recipient: None, kinds: vec![Kind::Session, Kind::EarlyCreated, Kind::Provisional], optional: true, idx: i });
+                want.push(mk(None, vec![Kind::Session, Kind::EarlyCreated, Kind::Provisional], true));
+                if busy_of(i) > 0 {
+                    // handed to the application or not: from here on the reference does not know when it polls
+                    stop_at = Some(i + 1);
+                    cut_t = Some(d);
+                    break;
+                }
             } else if r.code < 200 {
-                want.push(Want { marker, t, recipient: None, kinds: vec![Kind::EarlyCreated], optional: false, idx: i });
+                want.push(mk(None, vec![Kind::EarlyCreated], false));
                 early.insert(tag);
+                handed = true;
             } else {
-                want.push(Want { marker, t, recipient: None, kinds: vec![Kind::Session], optional: false, idx: i });
+                want.push(mk(None, vec![Kind::Session], false));
                 direct_sessions.insert(tag);
+                handed = true;
             }
         }
+        if handed && busy_of(i) > 0 {
+            ready = d + busy_of(i);
+            busy_used = true;
+        }
     }
+    let asserted = |idx: usize| stop_at.map_or(true, |s| idx < s);
 
     // ---- classes ----
     let tags: BTreeSet<_> = case.responses.iter().filter_map(|r| r.tag).collect();
     if tags.len() >= 2 {
         out.class("forked(>=2 tags)");
+        out.class(match case.tags {
+            0 => "fork-tags:plain",
+            1 => "fork-tags:differ-only-in-case",
+            2 => "fork-tags:prefix-of-each-other",
+            3 => "fork-tags:one-punctuation-char-differs",
+            4 => "fork-tags:long-last-char-differs",
+            _ => "fork-tags:numeric-lookalike",
+        });
     }
     let upgrade = !upgraded.is_empty();
     if upgrade {
@@ -466,7 +674,25 @@ pub fn check(case: &Case, out: &mut CaseOut) {
     if stop_at.is_some() {
         out.class("unasserted-tail");
     }
-    if tags.len() >= 2 || upgrade || dup_seen {
+    if busy_used {
+        out.class("application-busy-between-polls");
+    }
+    let queued_any = want.iter().any(|w| w.queued && asserted(w.idx));
+    if queued_any {
+        out.class("response-queued-while-application-busy");
+    }
+    if want.iter().any(|w| w.queued && asserted(w.idx) && w.recipient.is_some()) {
+        out.class("queued-response-forwarded-to-early-dialog");
+    }
+    if want.iter().any(|w| w.polled_after_deadline && asserted(w.idx)) {
+        out.class("arrived-inside-accepted-window-polled-after-64T1");
+    }
+    if let Some((fa, fd)) = accepted {
+        if fd > fa {
+            out.class("first-2xx-queued-while-application-busy");
+        }
+    }
+    if tags.len() >= 2 || upgrade || dup_seen || queued_any {
         out.nontrivial(case);
     }
     out.note = Some(format!(
@@ -478,8 +704,6 @@ pub fn check(case: &Case, out: &mut CaseOut) {
     ));
 
     // ---- compare: each response exactly one recipient, exactly once ----
-    let cut_t = stop_at.map(|i| case.responses[..=i.min(case.responses.len() - 1)].iter().map(|r| r.gap).sum::<u64>());
-    let asserted = |idx: usize| stop_at.map_or(true, |s| idx < s);
     for e in &obs.events {
         if let Kind::Error(msg) = &e.kind {
             let before_cut = cut_t.map_or(true, |c| e.t_ms < c);
@@ -494,10 +718,11 @@ pub fn check(case: &Case, out: &mut CaseOut) {
         }
         let got: Vec<&Event> = obs.events.iter().filter(|e| e.marker.as_deref() == Some(w.marker.as_str())).collect();
         let r = &case.responses[w.idx];
-        let what = format!("response {} ({}{})", w.marker, r.code, r.tag.map(|t| format!(" tag t{t}")).unwrap_or_default());
+        let what = format!("response {} ({}{})", w.marker, r.code, tag_of(r).map(|t| format!(" tag {t}")).unwrap_or_default());
         if got.is_empty() {
             if !w.optional {
                 let locus = match w.kinds[0] {
+                    _ if w.polled_after_deadline => "arrived-inside-accepted-window-polled-after-64T1",
                     Kind::Provisional if w.recipient.is_some() => "18x-known-tag-not-forwarded",
                     Kind::Provisional => "100-not-reported",
                     Kind::EarlyCreated => "18x-new-tag-no-early-dialog",
@@ -506,7 +731,7 @@ pub fn check(case: &Case, out: &mut CaseOut) {
                     Kind::Failure => "failure-not-reported",
                     _ => "other",
                 };
-                out.fail(format!("c13.lost/{locus}"), format!("{what} was delivered to nobody; events {:?}", out.note));
+                out.fail(format!("c13.lost/{locus}"), format!("{what} (classified at {} ms) was delivered to nobody; events {:?}", w.t, out.note));
             }
             continue;
         }
@@ -515,13 +740,15 @@ pub fn check(case: &Case, out: &mut CaseOut) {
         }
         let e = got[0];
         if !w.optional && (e.recipient != w.recipient || !w.kinds.contains(&e.kind)) {
+            // delivered into the early dialog of ANOTHER To-tag: two forks were taken for one
+            let other_fork = matches!((&e.recipient, tag_of(r)), (Some(x), Some(own)) if *x != own);
             out.fail(
-                "c13.classify/wrong-recipient-or-kind",
+                if other_fork { "c13.classify/forwarded-to-early-dialog-of-other-tag" } else { "c13.classify/wrong-recipient-or-kind" },
                 format!("{what}: delivered to {:?} as {:?}, expected {:?} as {:?}", e.recipient, e.kind, w.recipient, w.kinds),
             );
         }
         if e.t_ms != w.t {
-            out.fail("c13.classify/late", format!("{what}: delivered at {} ms, arrived at {} ms", e.t_ms, w.t));
+            out.fail("c13.classify/late", format!("{what}: delivered at {} ms, expected at {} ms (arrival, or the application's next poll)", e.t_ms, w.t));
         }
         // session contents come from THAT response
         if e.kind == Kind::Session && !w.optional {
@@ -532,7 +759,7 @@ pub fn check(case: &Case, out: &mut CaseOut) {
                     .iter()
                     .map(|x| x.trim_start_matches("sip:").split(';').next().unwrap_or("").to_string())
                     .collect();
-                let tag = r.tag.map(|t| format!("t{t}")).unwrap_or_default();
+                let tag = tag_of(r).unwrap_or_default();
                 if d.call_id != call_id || d.local_tag != local_tag || d.peer_tag != tag {
                     out.fail("c13.session/dialog-identifiers", format!("{what}: dialog ids {:?}, expected call-id {call_id} local {local_tag} peer {tag}", d));
                 }
@@ -561,10 +788,13 @@ pub fn check(case: &Case, out: &mut CaseOut) {
         }
     }
     // responses that must NOT surface (orphans after the transaction ended)
-    if let Some(end) = ended {
+    if let Some((end_idx, end_t)) = ended {
         for e in &obs.events {
-            if e.marker.is_some() && e.t_ms > end {
-                out.fail("c13.classify/delivered-after-failure", format!("{:?} delivered at {} ms after the final failure at {end}", e.marker, e.t_ms));
+            if let Some(m) = &e.marker {
+                let idx: usize = m[1..].parse().unwrap_or(usize::MAX);
+                if idx > end_idx {
+                    out.fail("c13.classify/delivered-after-failure", format!("{m} delivered at {} ms although the final failure m{end_idx} was handed over at {end_t} ms", e.t_ms));
+                }
             }
         }
         // failure terminates every early dialog
@@ -579,16 +809,23 @@ pub fn check(case: &Case, out: &mut CaseOut) {
     for e in &obs.events {
         if let Some(m) = &e.marker {
             let idx: usize = m[1..].parse().unwrap_or(usize::MAX);
-            if !want.iter().any(|w| &w.marker == m) && asserted(idx) {
+            let after_failure = ended.map_or(false, |(end_idx, _)| idx > end_idx); // reported above
+            if !want.iter().any(|w| &w.marker == m) && asserted(idx) && !after_failure {
                 out.fail("c13.classify/unexpected-delivery", format!("{m} delivered to {:?} as {:?} although the reference expects no delivery", e.recipient, e.kind));
             }
         }
     }
-    // completion 64*T1 after the first 2xx
-    if let (Some(f), None) = (first_2xx, stop_at) {
+    // completion 64*T1 after the first 2xx (its arrival, or the moment the polling application let the transaction see
+    // it), or as soon as the application polls again after that
+    if let (Some((fa, fd)), None) = (accepted, stop_at) {
         let fin: Vec<u64> = obs.events.iter().filter(|e| e.kind == Kind::Finished).map(|e| e.t_ms).collect();
-        if fin.len() != 1 || fin[0].abs_diff(f + TIMEOUT) > 2 {
-            out.fail("c13.finished/not-64T1-after-first-2xx", format!("Finished at {fin:?}, first 2xx at {f}"));
+        let lo = ready.max(fa + TIMEOUT);
+        let hi = ready.max(fd + TIMEOUT);
+        if fin.len() != 1 || fin[0] + 2 < lo || fin[0] > hi + 2 {
+            out.fail(
+                "c13.finished/not-64T1-after-first-2xx",
+                format!("Finished at {fin:?}; first 2xx arrived at {fa}, seen by the polling application at {fd}, application polling again from {ready}: expected once in {lo}..={hi}"),
+            );
         }
     }
     if ended.is_some() && stop_at.is_none() {
@@ -603,16 +840,20 @@ pub fn property() -> Property {
     Property {
         fuzz: vec![],
         id: "C13",
-        rule: "a case = history of 1..10 responses to one INVITE sent through Initiator (status from {100,180,183,199,200,202,300,404,486,603}, To-tag none / 3 tags, Contact present 93%, 0..3 Record-Route, Supported timer/100rel, Require+RSeq, Session-Expires) at gaps 1..31000 ms under a paused clock; the application keeps every Early, polls it and lets go of it when it yields a session or Terminated. exhaustive sub-check: every history of length <= 4 (thorough 5) over {100,180,200,486} x {no tag,t0,t1}. Oracle = reference classifier over the set of tags seen so far; every response carries a unique X-Seq marker, so recipients are identified exactly. Non-trivial = >=2 distinct To-tags, or a 2xx after an 18x of the same tag, or a response for a tag that already has a session; distinct by case.",
+        rule: "a case = history of 1..10 responses to one INVITE sent through Initiator (status from {100,180,183,199,200,202,300,404,486,603}, To-tag none / 3 forks, Contact present 93%, 0..3 Record-Route, Supported timer/100rel, Require+RSeq, Session-Expires) at gaps 1..31000 ms under a paused clock, x the spelling of the fork To-tags (plain; differing only in letter case; prefixes of each other; one punctuation character; 40 characters differing in the last; numeric look-alikes) x the application's polling schedule (after being handed response i it does not call Initiator::receive for busy[i] in {0,3,40,600,2530,31600,33010,40020} ms; half of the random cases poll continuously). The application keeps every Early, polls it continuously and lets go of it when it yields a session or Terminated. exhaustive: every history of length <= 4 (thorough 5) over {100,180,200,486} x {no tag,#0,#1}, plain tags, continuous polling. exhaustive-variants: every such history of length <= 3 (thorough 4) under case-variant tags, prefix tags, 33 s busy after every / the first / the second response, 600 ms busy after every response. Oracle = reference classifier over the set of tags seen so far and the application's ready time (FIFO queue: a response is classified at max(arrival, next poll)); every response carries a unique X-Seq marker, so recipients are identified exactly. Non-trivial = >=2 distinct To-tags, or a 2xx after an 18x of the same tag, or a response for a tag that already has a session, or a response that waited in the queue while the application was busy; distinct by case.",
         assumptions: vec![
-            "what the application sees for a response whose tag already has a session (retransmitted 2xx, late 18x) is not asserted beyond: delivered at most once, nothing panics, later responses are still classified",
+            "what the application sees for a response whose tag already has a session (retransmitted 2xx, late 18x) is not asserted beyond: delivered at most once, no second dialog, nothing panics, later responses are still classified; if the application is busy after such a response nothing after it is asserted (the reference cannot know whether it was handed over)",
             "a dialog-creating response without Contact is malformed: nothing is asserted from there on",
             "route set is compared as a set (its order is C11's subject)",
-            "non-2xx after a 2xx and arrivals within 3 ms of the end of the Accepted state are not asserted",
+            "non-2xx after a 2xx is not asserted",
+            "'64*T1 after the first 2xx' is accepted in both readings when the application polls lazily (arrival of the 2xx / the poll that made the transaction see it): responses arriving later than 3 ms before the earlier deadline are not asserted unless Finished has certainly been reported (then they must not surface); responses that arrived before it must be delivered even if the application polls only after 64*T1",
+            "To-tags are opaque tokens compared byte-wise; '%' in tags is excluded (open finding of C09/C11)",
+            "Early objects are always polled continuously (their channel is bounded; back-pressure timing is not part of the statement)",
         ],
-        explanation: "exhaustive over the reduced alphabet up to the stated length; random histories sampled",
+        explanation: "exhaustive over the reduced alphabet up to the stated length (plain/continuous, and per listed variant one step shorter); random histories, tag spellings and polling schedules sampled",
         subs: vec![
             enum_sub("exhaustive", exhaustive_cases, check),
+            enum_sub("exhaustive-variants", variant_cases, check),
             prop_sub("random", strategy, 1200, 20000, check),
         ],
     }
